@@ -19,7 +19,7 @@ BUILTINS = {'slice', 'transpose', 'split', 'full_like', 'solve', 'arange', 'atle
             'empty_like', 'zeros_like', 'sum', 'tuple', 'list', 'isinstance', 'print', 'zip', 'floor', 'sqrt',
             'exp', 'tanh', 'cosh', 'cos', 'sin', 'RuntimeError', 'ValueError', 'AssertionError', 'NotImplementedError',
             'str', 'reversed', 'sorted', 'all', 'any', 'prod', 'pi', 'mod', 'fabs', 'log', 'dict', 'set'}
-SPEC_BUILTINS = {'flatidx', 'prodof', 'coll_trace', 'interp_val', 'holds', 'valid', 'field_of', 'layout_of', 'same_content', 'distinct_bufs', 'same_buf', 'bufview', 'name_id', 'split', 'uknots', 'forall', 'exists', 'sum_', 'implies', 'and_', 'iff', 'old', 'ite_', 'shape', 'let', 'select', 'real', 'fdiv', 'fmod', 'trunc'}
+SPEC_BUILTINS = {'comm_size', 'comm_rank', 'peer_send', 'flatidx', 'prodof', 'coll_trace', 'interp_val', 'holds', 'valid', 'field_of', 'layout_of', 'same_content', 'distinct_bufs', 'same_buf', 'bufview', 'name_id', 'split', 'uknots', 'forall', 'exists', 'sum_', 'implies', 'and_', 'iff', 'old', 'ite_', 'shape', 'let', 'select', 'real', 'fdiv', 'fmod', 'trunc'}
 
 import vf.execu as _execu
 _execu.BUILTINS = BUILTINS
@@ -99,6 +99,12 @@ class Engine(Exec):
             return simp(prod_term(list(args[0])))
         if name == 'slice':
             return slice(*args) if len(args) > 1 else slice(None, args[0])
+        if name in ('comm_size', 'comm_rank'):
+            return self.comm_consts(st, args[0])[1 if name == 'comm_size' else 2]
+        if name == 'peer_send':
+            cid = self.comm_consts(st, args[0])[0]
+            PEER = V.uf('peer_send', INT, INT, z3.ArraySort(INT, REAL))
+            return SpecArr(PEER(z3.IntVal(cid), ZI(args[1])), [None], REAL)
         if name == 'flatidx':
             from .flat import flat_term
             return simp(flat_term(list(args[0]), list(args[1])))
@@ -316,9 +322,69 @@ class Engine(Exec):
         'Sub': lambda a, k: ('Sub', tuple(a[0]) if isinstance(a[0], (list, tuple)) else a[0]),
     }
 
+    def comm_consts(self, st, comm):
+        cid = st.objs[comm.oid].setdefault('cnum', comm.oid)
+        p = z3.Int('csize!%d' % cid)
+        me = z3.Int('crank!%d' % cid)
+        self.ctx.add_axioms([p >= 1, me >= 0, me < p])
+        return cid, p, me
+
+    def alltoall_data(self, comm, send, rcv, st, fr, node):
+        """Assumed contract of MPI_Alltoall with equal counts (DESIGN 2.5), stated through the chunk lens given by the contract
+        of the calling function: chunk r of the receive buffer is chunk `me` of member r's send buffer."""
+        from .flat import flat_term
+        c = fr.contract
+        while c is None or c.alltoall is None:
+            raise OutOfReach('Alltoall in a function whose contract does not describe the exchanged chunks')
+        cid, p, me = self.comm_consts(st, comm)
+        cfr_spec = fr.spec_only
+        fr.spec_only = True
+        try:
+            chunk = self.ev_clause_val(c.alltoall[0], st, fr)
+            lens = [self.ev_clause_val(x, st, fr) for x in c.alltoall[1]]
+        finally:
+            fr.spec_only = cfr_spec
+        for v in (send, rcv):
+            if not (isinstance(v, ArrView) and v.rank == 1 and v.base.rank == 1):
+                raise OutOfReach('Alltoall buffers must be contiguous rank-1 views')
+        # MPI requirement: equal counts, send and receive lengths p * chunk
+        self.safety(st, fr, 'alltoall_counts', b_and(compare('Eq', send.shape[0], binop('Mult', p, chunk)),
+                                                     compare('Eq', rcv.shape[0], binop('Mult', p, chunk))), node)
+        self.safety(st, fr, 'alltoall_distinct', send.base is not rcv.base, node)
+        base = rcv.base
+        old = st.heap[base.aid]
+        V._arr_counter[0] += 1
+        new = z3.Const('%s!a2a%d' % (base.name, V._arr_counter[0]), base.sort())
+        st.heap[base.aid] = new
+        off = ZI(rcv.spec[0][1])
+        n = ZI(rcv.shape[0])
+        PEER = V.uf('peer_send', INT, INT, z3.ArraySort(INT, REAL))
+        R = len(lens)
+        st.ghost['alltoall'] = dict(cid=cid, p=p, me=me, chunk=chunk, lens=lens)
+
+        def moved(r, *i):
+            g = b_and(compare('GtE', r, 0), compare('Lt', r, p),
+                      *[b_and(compare('GtE', i[k], 0), compare('Lt', i[k], lens[k])) for k in range(R)])
+            t = flat_term(lens, list(i))
+            return f_imp(g, z3.Select(new, off + ZI(r) * ZI(chunk) + t) ==
+                         z3.Select(PEER(z3.IntVal(cid), ZI(r)), me * ZI(chunk) + t))
+
+        def outside(k):
+            return f_imp(V.b_or(compare('Lt', k, off), compare('GtE', k, off + n)), z3.Select(new, k) == z3.Select(old, k))
+        st.qfacts.append(QFact(R + 1, moved, 'Alltoall: chunk r of the receive buffer = chunk me of member r'))
+        st.qfacts.append(QFact(1, outside, 'Alltoall: outside the receive buffer'))
+        return None
+
     def mpi_call(self, f, args, kwargs, st, fr, node):
         """Calls on a communicator object: collectives are appended to the ghost trace with their uniform signature."""
         name, comm = f.name, f.ref
+        if not self.trace_mode(fr):
+            if name == 'Get_size':
+                return self.comm_consts(st, comm)[1]
+            if name == 'Get_rank':
+                return self.comm_consts(st, comm)[2]
+            if name == 'Alltoall':
+                return self.alltoall_data(comm, args[0], args[1], st, fr, node)
         if name in self.MPI_SIG:
             sig = self.MPI_SIG[name](args, kwargs)
             sig = tuple(x.name if isinstance(x, FunVal) else x for x in sig)
@@ -359,8 +425,9 @@ class Engine(Exec):
         t = V.math_fun(name, a)
         ax = V.MATH_AXIOMS.get(name)
         if ax:
-            for c in ax(ZR(a), t):
-                st.pc.append(c)
+            # universally valid facts about the uninterpreted function: global axioms (not path facts, which expression
+            # evaluation may discard)
+            self.ctx.add_axioms(ax(ZR(a), t))
         return t
 
     # ------------------------------------------------------------------
